@@ -214,7 +214,9 @@ def SErr.str : SErr → String
   | .notElement => "unmodelled"
 
 /-- `_final_checks` (recursive); returns the updated state (the check rewrites matcher flags) -/
-partial def finalChecks (st : St) (id : Nat) (ic : Bool) : Except SErr Unit × St :=
+partial def finalChecks (st : St) (id : Nat) (ic : Bool) (depth : Nat := 400) : Except SErr Unit × St :=
+  -- a cyclic structure makes Python raise RecursionError; the model answers the same instead of overflowing its stack
+  if depth == 0 then (.error (.internal "RecursionError"), st) else
   match st.insts[id]? with
   | none => (.error .notElement, st)
   | some i =>
@@ -253,9 +255,10 @@ partial def finalChecks (st : St) (id : Nat) (ic : Bool) : Except SErr Unit × S
         cs.foldl (fun (acc : Except SErr Unit × St) c =>
           match acc.1 with
           | .error x => (.error x, acc.2)
-          | .ok _ => finalChecks acc.2 c ic) (.ok (), st2)
+          | .ok _ => finalChecks acc.2 c ic (depth - 1)) (.ok (), st2)
 
-partial def toXNode (st : St) (id : Nat) : Option Serialize.XNode × St :=
+partial def toXNode (st : St) (id : Nat) (depth : Nat := 400) : Option Serialize.XNode × St :=
+  if depth == 0 then (none, st) else
   match st.insts[id]? with
   | none => (none, st)
   | some i =>
@@ -265,7 +268,7 @@ partial def toXNode (st : St) (id : Nat) : Option Serialize.XNode × St :=
       let (cs, i2) := childrenOf i
       let st1 := { st with insts := st.insts.insert id i2 }
       let (kids, st2, ok) := cs.foldl (fun (acc : List Serialize.XNode × St × Bool) c =>
-        let (n, s') := toXNode acc.2.1 c
+        let (n, s') := toXNode acc.2.1 c (depth - 1)
         match n with
         | some x => (acc.1 ++ [x], s', acc.2.2)
         | none => (acc.1, s', false)) ([], st1, true)
@@ -283,7 +286,8 @@ partial def levelOf (st : St) (id : Nat) (fuel : Nat := 10000) : Nat :=
 
 /-- copy.deepcopy(e): rebuilt from constructor keywords, current attributes copied, children
     deep-copied and re-added through add_child -/
-partial def deepCopy (st : St) (id : Nat) (off : Nat) : Except String Unit × St :=
+partial def deepCopy (st : St) (id : Nat) (off : Nat) (depth : Nat := 400) : Except String Unit × St :=
+  if depth == 0 then (.error "err:internal:RecursionError", st) else
   match st.insts[id]? with
   | none => (.error "bad-inst", st)
   | some i =>
@@ -307,7 +311,7 @@ partial def deepCopy (st : St) (id : Nat) (off : Nat) : Except String Unit × St
           match acc.1 with
           | .error x => (.error x, acc.2)
           | .ok _ =>
-            let (r, s') := deepCopy acc.2 c off
+            let (r, s') := deepCopy acc.2 c off (depth - 1)
             match r with
             | .error x => (.error x, s')
             | .ok _ =>
